@@ -6,7 +6,7 @@ import time
 
 from cfg import cfg_of, op_str, pl_str, rv_str, term_str
 from facts import norm
-from flow import Taint, Tracker, callee_matches, op_local, prep, rv_operands
+from flow import Taint, Tracker, callee_matches, op_local, prep, rv_operands, field_reads
 
 
 def pat_match(npath, pats):
@@ -1292,3 +1292,129 @@ def _whole_file_write(self, rule, fn, descr):
 
 
 Run.whole_file_write = _whole_file_write
+
+
+def closure_truth_table(cl, classify, get_pats=("std::collections::hash::map::HashMap::get", "alloc::collections::btree::map::BTreeMap::get")):
+    """Evaluate a small loop-free bool closure as a function of atoms.  `classify(body, cmp_site)` names the atom a comparison tests
+    (e.g. "K": the keys are equal) or returns None; the result of a map `get` is the atom "S" (Some).  Returns
+    ({atom: True/False, ...} as a frozenset of items → returned bool) or None if the closure cannot be interpreted."""
+    prep(cl)
+    g = cfg_of(cl)
+    sites = {}
+    for c in compare_sites(cl):
+        a = classify(cl, c)
+        if a is None:
+            return None
+        sites[(c["bb"], c["d"])] = (a, c["op"])
+    atoms = sorted({a for a, _ in sites.values()} | ({"S"} if any(b["term"]["k"] == "call" and callee_matches(b["term"], list(get_pats)) for b in cl.blocks) else set()))
+    if len(atoms) > 4:
+        return None
+    table = {}
+    import itertools
+    for vals in itertools.product([False, True], repeat=len(atoms)):
+        env_atoms = dict(zip(atoms, vals))
+        env = {}
+        bb, steps = 0, 0
+        result = None
+        while steps < 200:
+            steps += 1
+            blk = cl.blocks[bb] if cl.blocks[bb]["id"] == bb else next(b for b in cl.blocks if b["id"] == bb)
+            for st in blk["stmts"]:
+                if len(st["d"]) != 1:
+                    continue
+                d, rv = st["d"][0], st["rv"]
+                if rv["k"] == "bin" and (blk["id"], d) in sites:
+                    a, op = sites[(blk["id"], d)]
+                    env[d] = env_atoms[a] if op == "Eq" else (not env_atoms[a])
+                elif rv["k"] == "use" and rv["a"][0] == "c" and rv["a"][1] in ("true", "false"):
+                    env[d] = rv["a"][1] == "true"
+                elif rv["k"] == "use" and rv["a"][0] in ("cp", "mv") and len(rv["a"][1]) == 1:
+                    env[d] = env.get(rv["a"][1][0])
+                elif rv["k"] == "un" and rv["op"] == "Not":
+                    v = env.get(op_local(rv["a"]))
+                    env[d] = None if v is None else (not v)
+                elif rv["k"] == "discr":
+                    v = env.get(("opt", rv["p"][0]))
+                    env[d] = None if v is None else (1 if v else 0)
+                else:
+                    env[d] = None
+            t = blk["term"]
+            if t["k"] == "return":
+                result = env.get(0)
+                break
+            if t["k"] == "goto":
+                bb = t["target"] if "target" in t else g.succ[bb][0][0]
+                continue
+            if t["k"] == "call":
+                d = t["d"][0] if len(t.get("d") or []) == 1 else None
+                if d is not None:
+                    if (blk["id"], d) in sites:
+                        a, op = sites[(blk["id"], d)]
+                        env[d] = env_atoms[a] if op == "Eq" else (not env_atoms[a])
+                    elif callee_matches(t, list(get_pats)):
+                        env[("opt", d)] = env_atoms["S"]
+                    else:
+                        env[d] = None
+                nxt = [x for x, k in g.succ[bb] if k != "unwind"] or [x for x, _ in g.succ[bb]]
+                bb = nxt[0]
+                continue
+            if t["k"] == "switch":
+                v = env.get(op_local(t["on"]))
+                if v is None:
+                    return None
+                iv = int(v)
+                tgt = None
+                for val, dst in t["targets"]:
+                    if int(val) == iv:
+                        tgt = dst
+                bb = tgt if tgt is not None else t["otherwise"]
+                continue
+            if t["k"] in ("drop", "assert", "false_edge", "false_unwind"):
+                nxt = [x for x, _ in g.succ[bb]]
+                if not nxt:
+                    return None
+                bb = nxt[0]
+                continue
+            return None
+        if result is None:
+            return None
+        table[frozenset(env_atoms.items())] = result
+    return atoms, table
+
+
+def _retain_polarity(self, rule, fn, field, expected, descr, classify):
+    """K10 on a `retain` closure: the entry is kept exactly when `expected(atoms)` says so, for every combination of the atoms."""
+    F = self.F
+    body = self.body(rule, fn)
+    if body is None:
+        return False
+    prep(body)
+    recv = Taint(body).closure({d for d, r, p in field_reads(body, field)})
+    rets = [blk for blk in body.blocks if blk["term"]["k"] == "call" and not blk["cleanup"] and (blk["term"]["ncallee"] or "").endswith("::retain") and op_local(blk["term"]["args"][0]) in recv]
+    ok = bool(rets)
+    if not rets:
+        self.viol(rule, "retain-missing:%s.%s" % (fn.split("::")[-1], field), "%s no longer prunes %s with retain" % (fn, field), body, body.lines[0])
+    for blk in rets:
+        cls = closures_passed(F, body, blk["term"])
+        if len(cls) != 1:
+            ok = False
+            self.viol(rule, "closure-missing:%s.%s" % (fn.split("::")[-1], field), "cannot find the retain closure of %s on %s" % (fn, field), body, blk["term"]["l"])
+            continue
+        tt = closure_truth_table(cls[0], classify)
+        if tt is None:
+            ok = False
+            self.viol(rule, "not-evaluated:%s.%s" % (fn.split("::")[-1], field), "the retain closure of %s on %s could not be evaluated as a function of (key equal, type equal, stored)" % (fn.split("::")[-1], field), cls[0], cls[0].lines[0])
+            continue
+        atoms, table = tt
+        for k, v in table.items():
+            env = dict(k)
+            if v != expected(env):
+                ok = False
+                self.viol(rule, "polarity:%s.%s" % (fn.split("::")[-1], field), "%s keeps/drops the wrong %s entries: with %s the entry is %s" % (
+                    fn.split("::")[-1], field, ", ".join("%s=%s" % kv for kv in sorted(env.items())), "kept" if v else "dropped"), cls[0], cls[0].lines[0])
+                break
+    self.inst(rule, "K10 polarity", descr, len(rets), ok)
+    return ok
+
+
+Run.retain_polarity = _retain_polarity
